@@ -1,5 +1,6 @@
 """C18 deductive part: call-site conformance of the resampling call and purity of the seed stream (loop with invariant over any n_boot)."""
 from ..contracts.bootstrap import BootstrapArguments, ManySamples, Quantiles, SingleSample
+from ..contracts import mf_cache
 from ..pyvc import verify
 
 
@@ -23,4 +24,5 @@ def run_deductive(rep):
     items += [(Quantiles("frame"), [("missing_groups_poison_the_quantiles", verify.replace_expr("np.nanquantile", "np.quantile")),
                                     ("quantile_entries_all_from_the_first_quantile", verify.replace_expr("result_np[i, :, :]", "result_np[0, :, :]"))]),
               (Quantiles("series"), [])]
+    items += mf_cache.ci_items(verify)          # the six bootstrap readers hand out the interval list of their own estimate (and method)
     verify.verify_many(rep, items)
